@@ -49,7 +49,8 @@ func (c *Decoder) nextFrame() *Frame {
 		return c.fin
 	}
 
-	if _, err := io.LimitReader(c.r, 2).Read(*buf); err != nil {
+	// Read could return fewer bytes than requested at the boundary of buffer, ensure to read 2 bytes
+	if _, err := io.ReadFull(c.r, (*buf)[:2]); err != nil {
 		return &Frame{
 			frameType: UNKNOWN,
 			size:      0,
